@@ -7,6 +7,7 @@ from typing import Any
 
 from vp import core
 
+from props import c04_attrs as A
 from props import c04_gen as G
 from props import c04_ir as I
 from props import c04_sk as S
@@ -16,7 +17,7 @@ META = {
     "title": "Generic textual form round-trips every valid IR",
     "category": "proof",
     "design_ref": "DESIGN.md §5 C04",
-    "lean_modules": ["XdslProofs.C04", "XdslProofs.C04Skeleton"],
+    "lean_modules": ["XdslProofs.C04", "XdslProofs.C04Skeleton", "XdslProofs.C04Verbatim"],
     "text": (
         "Lean theorems on the name layer of the generic form (XdslModel/Names.lean = extract_valid_name, "
         "Printer.print_ssa_value/_populate_block_name/print_region/enter_scope, Parser hint storing): "
@@ -49,7 +50,21 @@ META = {
         "checked directly, with an own canonical serialisation, on those generated programs, on generated modules "
         "with unregistered-dialect attributes and types whose verbatim bodies exercise the raw bracket/string "
         "scanner of the parser, on every "
-        "parseable+verifying chunk of tests/**/*.mlir with all dialects registered, and on pass outputs."
+        "parseable+verifying chunk of tests/**/*.mlir with all dialects registered, and on pass outputs; and on "
+        "generated modules whose operations (registered and unregistered, under operation names with and without "
+        "dialect prefix, at several nesting depths) carry builtin attribute/type payloads from a boundary-value "
+        "catalogue — integers at width boundaries, floats of every width incl. integral f64 with more than six "
+        "significant digits, 2**32, 2**53, denormals, ±0, inf/nan, dense/array of those, strings with escapes, "
+        "nested containers, affine/location/opaque attributes, every builtin type — and random payloads from the C06 "
+        "generator, in attribute dictionaries, properties, result and block-argument types. "
+        "Lean theorems on text that must pass unchanged (XdslModel/Verbatim.lean = BasePrinter.print_string, "
+        "Context.get_optional_op): printString_zero / printString_eq_self_iff (a verbatim body printed with "
+        "indentation 0 is written unchanged; with any other indentation iff it has no line break — "
+        "printString_iterate_length: else it grows on every print→parse round), generic_lookup / "
+        "generic_name_roundtrip (the quoted operation name of the generic form is read back as the operation of "
+        "exactly that name, registered iff the name is), lookup_eq_generic_iff (when the dialect-stack lookup of the "
+        "custom form agrees); tied to the real print_string at every indentation, to UnregisteredAttr printing, to "
+        "get_optional_op over all stacks and to the parser's lookup below operations of other dialects."
     ),
     "technique": "Lean 4 proofs on the name-allocation model + exhaustive/random differential correspondence + direct round-trip oracle over generated programs, the .mlir corpus and pass outputs",
     "level_note": (
@@ -62,7 +77,12 @@ META = {
         "labels are linked through the checked hypothesis `admissible`, which the harness evaluates on the names "
         "the real printer gave). Not proved, only exercised by the "
         "round-trip oracle: every attribute/type printer+parser of the ~80 dialects (modelled, not verified; "
-        "literals are C06). Trusted: hand-written models XdslModel/Names.lean and XdslModel/Skeleton.lean "
+        "literals are C06: a module of the `attrs` family that fails because one payload does not survive "
+        "print→parse on its own is reported under the call_site/signature the C06 classification gives that payload, "
+        "so the known literal-layer defects — BytesAttr with valid UTF-8, non-canonical NaN encodings of the f8/f6/f4 "
+        "types — are listed for C04 under the same names; operation names equal to a registered name on an "
+        "unregistered operation are not generated: the text cannot tell them apart). "
+        "Trusted: hand-written models XdslModel/Names.lean, XdslModel/Skeleton.lean and XdslModel/Verbatim.lean "
         "(tied by correspondence), the span-recording printer subclass and serialiser in "
         "harness/props/c04_sk.py, Python `re` "
         "matching the transcribed regexes, the canonical serialiser in harness/props/c04_ir.py. "
@@ -87,6 +107,16 @@ META = {
         "brackets, inside brackets) and random bodies from a grammar of balanced `()[]{}<>`, strings with escaped "
         "quotes/backslashes/brackets/`>`/`->`/`//`, commas, nested unregistered and builtin attributes; every such "
         "module is non-trivial. "
+        "(bodies spanning several lines included, also below other operations). "
+        "attrs: every payload of the boundary-value catalogue (props/c04_attrs.py; the same on every run) in chunks of "
+        "12 on an unregistered operation at top level and again three levels down inside test.op / unregistered / "
+        "builtin.module regions, types also as result and block-argument types, every unregistered operation name of "
+        "the name catalogue below every kind of parent, every attribute-dictionary key of the key catalogue; plus "
+        "random payload lists from the C06 generator; every such module is non-trivial. "
+        "verbatim: every text over {a, line break, space} up to length 4, the multi-line bodies and random texts × "
+        "indentation 0/1/3 (non-trivial = has a line break and indentation > 0); every name of the name catalogue × "
+        "every dialect stack over {builtin, test, func, u} up to length 2 (non-trivial = some enclosing dialect has "
+        "an operation of that short name). "
         "skeleton: every module of the families above that prints and re-parses, plus hand-written corner "
         "texts and token-level mutations of printed streams (real parser vs parseSk: accept/reject and structure)."
     ),
@@ -94,6 +124,8 @@ META = {
         "hand-written Lean model XdslModel/Names.lean (fixed printer/parser name logic), tied by correspondence",
         "hand-written Lean model XdslModel/Skeleton.lean (generic-form printer/parser skeleton), tied by correspondence; serialiser harness/props/c04_sk.py",
         "canonical IR serialiser + round-trip oracle harness/props/c04_ir.py",
+        "hand-written Lean model XdslModel/Verbatim.lean (print_string indentation, operation-name lookup), tied by correspondence",
+        "payload recipes, constructors and attribute-level classification shared with C06 (harness/props/c06_values.py, c06.classify)",
     ],
     "budget": {"quick": 110, "thorough": 1150},
 }
@@ -155,6 +187,12 @@ def classify_rt(rt: I.RT) -> tuple[str, str, str]:
         if re.search(r"dense<[^>]*0x[0-9A-Fa-f]+", rt.text1) and "bytes" in d:
             return ("xdsl.parser.attribute_parser.AttrParser._TensorLiteralElement.to_float",
                     "dense float element printed as hex bit pattern is re-read as an integer value", d)
+        m = re.search(r"'unregistered:([^']*)' vs '([^']*)'", d)
+        if m and m.group(2).endswith("." + m.group(1)):
+            return ("xdsl.parser.core.Parser.parse_operation",
+                    "quoted operation name without that dialect prefix is looked up in the enclosing dialects",
+                    "the generic form spells operation names in full, but the parser also tries the name behind the "
+                    "dialect of every enclosing operation: an unregistered operation comes back as a registered one: " + d)
         if "dense_resource" in rt.text1 and "str" in d and re.search(r"'(\w+)' vs '\1_\d+'", d):
             return ("xdsl.dialect_interfaces.op_asm.OpAsmDialectInterface.declare_resource",
                     "resource handle renamed on re-parse (blob storage shared between Contexts)", d)
@@ -485,6 +523,14 @@ def has_inherent_attr_in_dict(module) -> bool:
 def classify_unreg(rt: I.RT) -> tuple[str, str, str]:
     """in the `unreg` family the only text that is not plain skeleton is the verbatim body of an
     unregistered attribute: a text that does not parse back is charged to the body scanner"""
+    if re.search(r"[#!]d[.<][^\n]*\n", rt.text1) and (
+            rt.stage == "reprint" or (rt.stage == "canonical" and re.search(r"'[^']*\\n[^']*' vs '[^']*\\n", rt.detail))
+            or (rt.stage == "reparse" and "previously used or defined with type" in rt.detail)):
+        # (at `reparse`: one type printed at two indentation levels reads back as two types)
+        return ("xdsl.dialects.builtin.UnregisteredAttr.print_builtin",
+                "multi-line body of an unregistered attribute/type is re-indented by the printer",
+                "the body of an unregistered attribute is verbatim text, but print_string puts the current indentation "
+                "after each of its line breaks, so the body grows on every print → parse: " + rt.detail)
     if rt.stage == "reparse":
         return ("xdsl.parser.attribute_parser.AttrParser._raw_scan_balanced",
                 "printed body of an unregistered attribute/type does not parse back",
@@ -569,10 +615,18 @@ def run_unreg(ctx: core.Ctx, n_random: int, str_len: int, chunk: int = 40) -> No
                 best = cand
         check_module(ctx, U.build(best), {"family": "unreg", "spec": best}, "unreg", classify=classify_unreg)
 
+    # builtin payloads placed next to the unregistered attributes: those of the boundary-value catalogue that
+    # round-trip on their own (this family is about the verbatim bodies; payloads are judged in `attrs`)
+    from props import c06
+
+    payloads = [r for r in A.catalogue_attrs() if c06.roundtrip(r)["status"] == "ok"]
+    ctx.count("unreg.payload_catalogue", len(payloads))
     # every string literal over the core pieces, alone and followed by brackets, as attribute and as type
     bodies: list[str] = []
     for st in U.exhaustive_strings(str_len):
         bodies += [st, st + ", [1, 2]", "{k = " + st + "}, (" + st + ")"]
+    # bodies that span several lines: the body is verbatim text, line breaks and what follows them included
+    bodies += U.MULTILINE_BODIES
     ctx.count("unreg.exhaustive_bodies", len(bodies))
     for k in range(0, len(bodies), chunk):
         part = bodies[k:k + chunk]
@@ -581,9 +635,243 @@ def run_unreg(ctx: core.Ctx, n_random: int, str_len: int, chunk: int = 40) -> No
     for k in range(n_random):
         if ctx.time_left() < 20:
             break
-        one(U.random_spec(ctx.rng, ctx.rng.randint(1, 6)), ("random", k))
+        one(U.random_spec(ctx.rng, ctx.rng.randint(1, 6), payloads), ("random", k))
+    # the multi-line bodies once more below other operations (another indentation level of the printer)
+    one(U.nested_spec(U.MULTILINE_BODIES), ("nested", 0))
     sk.finish()
     ctx.sample({"family": "unreg", "text": I.print_generic(U.build(U.spec_of_bodies(['"a\\"]", {k = "v\\")"}'], False)))})
+
+
+def classify_payload(r: list, res: dict[str, Any]) -> tuple[str, str]:
+    """(call_site, signature) for a module that fails because of ONE builtin payload which does not
+    survive print → parse on its own either: the classification of the literal layer (C06), so that
+    one defect carries one name in both properties"""
+    from props import c06
+
+    if r[0] == "float" and r[1] in ("f80", "f128") and res["status"] == "print-raise":
+        return ("xdsl.printer.Printer.print_float",
+                "FloatAttr of type f80/f128 cannot be printed (these types have no packing)")
+    return c06.classify(r, res)
+
+
+def run_attrs(ctx: core.Ctx, n_random: int, sk_stride: int = 1) -> None:
+    """builtin attribute / type payloads from the boundary-value catalogue and from the C06 generator, on
+    registered and unregistered operations of several names and nesting depths (see c04_attrs.py)"""
+    from props import c06
+    from props import c06_values as V
+
+    sk = S.SkBatch(ctx, "attrs", stride=sk_stride)
+
+    def outcome(spec: dict[str, Any]):
+        try:
+            m = A.build(spec)
+            m.verify()
+        except Exception:  # noqa: BLE001
+            return None, None
+        return m, I.roundtrip(m)
+
+    def one(spec: dict[str, Any], key: Any) -> None:
+        m, rt = outcome(spec)
+        if m is None:
+            # the constructors / the verifier refuse it: outside the quantifier
+            ctx.count("attrs.not_constructible_or_unverified")
+            return
+        ctx.count("attrs.modules")
+        ctx.ev()
+        ctx.nt(("attrs", key))
+        assert rt is not None
+        if rt.ok or rt.m2 is not None:
+            sk.add(m, {"family": "attrs", "spec": spec}, rt.ok, rt.m2)
+        if rt.ok:
+            return
+        # shrink: the smallest sub-spec that fails at the same stage
+        best, best_rt = spec, rt
+        for cand in A.payload_specs(spec):  # first: one payload alone on a plain operation
+            mc, rc = outcome(cand)
+            if mc is not None and rc is not None and not rc.ok and rc.stage == rt.stage:
+                best, best_rt = cand, rc
+                break
+        for _ in range(3):
+            improved = False
+            for cand in A.sub_specs(best):
+                if len(str(cand)) >= len(str(best)):
+                    continue
+                mc, rc = outcome(cand)
+                if mc is not None and rc is not None and not rc.ok and rc.stage == best_rt.stage:
+                    best, best_rt, improved = cand, rc, True
+            if not improved:
+                break
+        ctx.count(f"attrs.fail.{best_rt.stage}")
+        case = {"family": "attrs", "spec": best}
+        r = A.single_recipe(best)
+        if r is not None:
+            res = c06.roundtrip(r)
+            if res["status"] not in ("ok", "ctor"):
+                # the payload fails on its own: descend to the smallest part of it that does, keep it as the
+                # case when a module carrying only that part fails as well
+                small = c06.shrink(r)
+                sres = c06.roundtrip(small)
+                if small != r and sres["status"] not in ("ok", "ctor"):
+                    cand = A.with_single_recipe(best, small)
+                    mc, rc = outcome(cand) if cand is not None else (None, None)
+                    if mc is not None and rc is not None and not rc.ok:
+                        best, best_rt, r, res = cand, rc, small, sres
+                        case = {"family": "attrs", "spec": best}
+                site, sig = classify_payload(r, res)
+                ctx.fail(site, sig, case,
+                         f"a module carrying this payload does not round-trip ({best_rt.stage}: {best_rt.detail[:300]}); "
+                         f"the payload alone: {res['status']}, printed {res.get('text')!r}",
+                         {"stage": best_rt.stage, "text": best_rt.text1[:1500], "text2": best_rt.text2[:1500]}, None)
+                return
+        site, sig, desc = classify_rt(best_rt)
+        ctx.fail(site, sig, case, desc, {"stage": best_rt.stage, "text": best_rt.text1[:1500], "text2": best_rt.text2[:1500]}, None)
+
+    specs = A.catalogue_specs()
+    ctx.count("attrs.catalogue_payloads", len(A.catalogue_attrs()) + len(A.catalogue_types()))
+    for k, spec in enumerate(specs):
+        one(spec, ("catalogue", k))
+    gen = V.Gen(ctx.rng, V.FLOAT_TYPES_MAIN + V.FLOAT_TYPES_MAIN + V.FLOAT_TYPES_SMALL)
+    for k in range(n_random):
+        if ctx.time_left() < 20:
+            break
+        one(A.random_spec(ctx.rng, gen), ("random", k))
+    sk.finish()
+    ctx.sample({"family": "attrs", "text": I.print_generic(A.build(A.spec_of(
+        [["float", "f64", V.d2h(1234567.0)], ["dense", "tensor", [2], ["f", "f64"], [V.d2h(float(2**53)), V.d2h(-0.0)]]],
+        [["tensorty", ["fty", "f64"], [2], None]], ["op"])))[:900]})
+
+
+# ---------------------------------------------------------------------------------------------
+# text that must pass unchanged: verbatim bodies and quoted operation names (Lean model `verbatim`)
+# ---------------------------------------------------------------------------------------------
+
+def _cps(s: str) -> str:
+    return ",".join(str(ord(c)) for c in s) if s else "-"
+
+
+def _cps_list(xs: list[str]) -> str:
+    return ";".join(_cps(x) if x else "~" for x in xs) if xs else "-"
+
+
+LOOKUP_NAMES = A.UNREG_NAMES + ["test.op", "builtin.module", "func.func", "func.return", "call", "unrealized_conversion_cast",
+                                "op.op", "test", "builtin", ""]
+LOOKUP_PARENT = {"builtin": '"builtin.module"', "test": '"test.op"', "func": '"func.func"'}
+
+
+def run_verbatim(ctx: core.Ctx, n_random: int) -> None:
+    """(a) BasePrinter.print_string at every indentation vs `printString`; an unregistered attribute printed at
+    every indentation must show its body verbatim.  (b) Context.get_optional_op with a dialect stack vs `lookup`;
+    the class the parser finds for a quoted name below operations of other dialects vs `lookupGeneric`, and
+    directly: it must carry that name."""
+    from io import StringIO
+
+    from xdsl.context import Context
+    from xdsl.dialects.builtin import Builtin, UnregisteredAttr, UnregisteredOp
+    from xdsl.dialects.func import Func
+    from xdsl.dialects.test import Test
+    from xdsl.parser import Parser
+    from xdsl.printer import Printer
+
+    lines: list[str] = []
+    impl: list[str] = []
+    cases: list[Any] = []
+
+    # ---- (a)
+    texts = list(U.MULTILINE_BODIES) + ["".join(t) for n in range(0, 5) for t in itertools.product("a\n ", repeat=n)]
+    for _ in range(n_random):
+        texts.append("".join(ctx.rng.choice(["a", "\n", " ", "\t", "\r", "é", ",", "\n\n"]) for _ in range(ctx.rng.randint(1, 12))))
+    cls = UnregisteredAttr.with_name_and_type("d.a", False)
+    for text in texts:
+        for lvl in (0, 1, 3):
+            io = StringIO()
+            p = Printer(stream=io)
+            p._indent = lvl  # noqa: SLF001
+            p.print_string(text)
+            lines.append(f"pstr {lvl * p.indent_num_spaces} {_cps(text)}")
+            impl.append(_cps(io.getvalue()))
+            cases.append({"family": "verbatim", "text": text, "indent": lvl})
+            io = StringIO()
+            p = Printer(stream=io)
+            p._indent = lvl  # noqa: SLF001
+            p.print_string(text, indent=0)
+            lines.append(f"pstr 0 {_cps(text)}")
+            impl.append(_cps(io.getvalue()))
+            cases.append({"family": "verbatim", "text": text, "indent": lvl, "explicit_indent": 0})
+            ctx.ev()
+            if "\n" in text and lvl:
+                ctx.nt(("verbatim", text, lvl))
+            # direct: an unregistered attribute shows its body verbatim wherever it is printed
+            if text and U.scan_ok(text):
+                io = StringIO()
+                p = Printer(stream=io)
+                p._indent = lvl  # noqa: SLF001
+                p.print_attribute(cls("d.a", False, False, text))
+                if io.getvalue() != f"#d.a<{text}>":
+                    ctx.fail("xdsl.dialects.builtin.UnregisteredAttr.print_builtin",
+                             "multi-line body of an unregistered attribute/type is re-indented by the printer",
+                             {"family": "verbatim", "text": text, "indent": lvl},
+                             "the body of an unregistered attribute is verbatim text; printed at this indentation level it "
+                             "comes out changed", io.getvalue(), f"#d.a<{text}>")
+    ctx.count("verbatim.print_string_cases", len(lines))
+
+    # ---- (b)
+    def fresh() -> Context:
+        c = Context(allow_unregistered=True)
+        for d in (Builtin, Test, Func):
+            c.load_dialect(d)
+        return c
+
+    known = sorted(o.name for o in fresh().loaded_ops)
+    kn = _cps_list(known)
+
+    def show(cls_) -> str:
+        if issubclass(cls_, UnregisteredOp) and cls_ is not UnregisteredOp:  # (the bare class is `builtin.unregistered`)
+            return "unreg " + _cps(cls_.create().op_name.data)
+        return "reg " + _cps(cls_.name)
+
+    dialects = ["builtin", "test", "func", "u"]
+    stacks: list[list[str]] = [[]] + [[d] for d in dialects] + [[a, b] for a in dialects for b in dialects]
+    stacks += [["builtin", "test", "func"], ["func", "test", "builtin"]]
+    n0 = len(lines)
+    for name in LOOKUP_NAMES:
+        for stack in stacks:
+            got = fresh().get_optional_op(name, dialect_stack=stack)
+            lines.append(f"lookup {kn} {_cps_list(stack)} {_cps(name)}")
+            impl.append("none" if got is None else show(got))
+            cases.append({"family": "verbatim", "lookup": name, "stack": stack})
+            ctx.ev()
+            if any(f"{d}.{name}" in known for d in stack):
+                ctx.nt(("lookup", name, tuple(stack)))
+            if name == "" or any(d not in LOOKUP_PARENT for d in stack):
+                continue
+            # the quoted name of the generic form below operations of these dialects
+            text = f'"{name}"() : () -> ()'
+            for d in reversed(stack):
+                text = LOOKUP_PARENT[d] + "() ({\n" + text + "\n}) : () -> ()"
+            try:
+                m = Parser(fresh(), text).parse_module()
+                inner = list(m.walk())[-1]
+                got_s = show(type(inner))
+            except Exception as e:  # noqa: BLE001
+                got_s = "raise " + core.exc_name(e)
+            lines.append(f"glookup {kn} {_cps(name)}")
+            impl.append(got_s)
+            case = {"family": "verbatim", "text": text}
+            cases.append(case)
+            want = ("reg " if name in known else "unreg ") + _cps(name)
+            if got_s != want:
+                ctx.fail("xdsl.parser.core.Parser.parse_operation",
+                         "quoted operation name without that dialect prefix is looked up in the enclosing dialects",
+                         case, "the generic form spells operation names in full; the operation read back must carry the "
+                         "quoted name", got_s, want)
+    ctx.count("verbatim.lookup_cases", len(lines) - n0)
+    model = ctx.model("verbatim", lines)
+    i = core.diff_streams(impl, model)
+    if i is not None:
+        ctx.mismatch("correspondence:C04/verbatim", {**cases[i], "line": lines[i][:300]}, impl[i], model[i],
+                     "BasePrinter.print_string / Context.get_optional_op / the parser's operation lookup and the Lean model "
+                     "`verbatim` disagree")
+    ctx.sample({"family": "verbatim", "line": "pstr 2 " + _cps("a\nb"), "impl": _cps("a\n  b")})
 
 
 def module_nontrivial(text: str) -> bool:
@@ -693,6 +981,8 @@ def run(ctx: core.Ctx) -> None:
         timed("accept", run_accept, ctx, 300)
         timed("corner", run_corner, ctx, mut, 25)
         timed("unreg", run_unreg, ctx, 400, 3)
+        timed("attrs", run_attrs, ctx, 250, sk_stride=2)
+        timed("verbatim", run_verbatim, ctx, 100)
         timed("names", run_names, ctx, val_len=4, ext_len=2, blk_len=3, blk_ext_len=2, scoped_len=4, sk_stride=3)
         timed("random", run_random, ctx, 500, mut, 0.15, 8)
         # the skeleton leg sees every second verified chunk per run (which half depends on the seed)
@@ -702,6 +992,8 @@ def run(ctx: core.Ctx) -> None:
         timed("accept", run_accept, ctx, 5000)
         timed("corner", run_corner, ctx, mut, 400)
         timed("unreg", run_unreg, ctx, 3000, 4)
+        timed("attrs", run_attrs, ctx, 6000)
+        timed("verbatim", run_verbatim, ctx, 3000)
         timed("names", run_names, ctx, val_len=5, ext_len=3, blk_len=4, blk_ext_len=3, scoped_len=5)
         timed("random", run_random, ctx, 8000, mut, 0.2, 20)
         timed("corpus", run_corpus, ctx, stride=1, pass_names=PASSES_THOROUGH, pass_stride=1, mut=mut, mut_p=0.5, mut_k=20)
@@ -711,6 +1003,54 @@ def run(ctx: core.Ctx) -> None:
     ctx.extra["exhaustive_scope"] = (
         "names: all raw-hint lists over the stated alphabets up to the length bound (values, blocks, scoped "
         "sequences); corpus: every chunk of tests/**/*.mlir; random programs and pass outputs are samples")
+
+
+def replay_verbatim(ctx: core.Ctx, case: dict) -> int:
+    from io import StringIO
+
+    from xdsl.dialects.builtin import UnregisteredAttr, UnregisteredOp
+    from xdsl.printer import Printer
+
+    if "lookup" in case:
+        from xdsl.context import Context
+        from xdsl.dialects.builtin import Builtin
+        from xdsl.dialects.func import Func
+        from xdsl.dialects.test import Test
+
+        c = Context(allow_unregistered=True)
+        for d in (Builtin, Test, Func):
+            c.load_dialect(d)
+        known = sorted(o.name for o in c.loaded_ops)
+        got = c.get_optional_op(case["lookup"], dialect_stack=case["stack"])
+        line = f"lookup {_cps_list(known)} {_cps_list(case['stack'])} {_cps(case['lookup'])}"
+        print("get_optional_op:", got, "| model:", ctx.model("verbatim", [line])[0])
+        return 0
+    if "indent" in case:
+        text, lvl = case["text"], case["indent"]
+        io = StringIO()
+        p = Printer(stream=io)
+        p._indent = lvl  # noqa: SLF001
+        p.print_string(text, indent=case.get("explicit_indent"))
+        k = 0 if case.get("explicit_indent") == 0 else lvl * p.indent_num_spaces
+        print("print_string:", repr(io.getvalue()), "| model:", ctx.model("verbatim", [f"pstr {k} {_cps(text)}"])[0])
+        io = StringIO()
+        p = Printer(stream=io)
+        p._indent = lvl  # noqa: SLF001
+        cls = UnregisteredAttr.with_name_and_type("d.a", False)
+        p.print_attribute(cls("d.a", False, False, text))
+        bad = io.getvalue() != f"#d.a<{text}>"
+        print("unregistered attribute printed:", repr(io.getvalue()))
+        print("property", "FAILS" if bad else "holds", "on this case")
+        return 1 if bad else 0
+    m = I.parse_module(case["text"])
+    inner = list(m.walk())[-1]
+    name = re.match(r'(?s).*"([^"]*)"\(\) : \(\) -> \(\)', case["text"]).group(1)  # type: ignore[union-attr]
+    got = inner.op_name.data if isinstance(inner, UnregisteredOp) else inner.name
+    print(case["text"])
+    print("innermost operation read back as:", type(inner).__name__, got, "| written:", name)
+    bad = got != name
+    print("property", "FAILS" if bad else "holds", "on this case")
+    return 1 if bad else 0
 
 
 def replay(ctx: core.Ctx, body: dict) -> int:
@@ -724,6 +1064,8 @@ def replay(ctx: core.Ctx, body: dict) -> int:
             m = G.build(case["spec"])
         elif fam == "unreg":
             m = U.build(case["spec"])
+        elif fam == "attrs":
+            m = A.build(case["spec"])
         elif fam == "corner":
             m = I.parse_module(case["text"])
         elif fam in ("corpus", "pass"):
@@ -762,10 +1104,12 @@ def replay(ctx: core.Ctx, body: dict) -> int:
             impl = "raise ValueError"
         model = ctx.model("names", ["accept " + ",".join(str(ord(c)) for c in raw)])[0]
         print("raw:", repr(raw), "implementation:", impl, "model:", model)
-    elif fam in ("corpus", "pass", "corner", "unreg"):
-        text = "" if fam == "unreg" else case["text"] if fam == "corner" else (core.REPO / case["file"]).read_text().split("// -----")[case["chunk"]]
-        if fam == "unreg":
-            m = U.build(case["spec"])
+    elif fam == "verbatim":
+        return replay_verbatim(ctx, case)
+    elif fam in ("corpus", "pass", "corner", "unreg", "attrs"):
+        text = "" if fam in ("unreg", "attrs") else case["text"] if fam == "corner" else (core.REPO / case["file"]).read_text().split("// -----")[case["chunk"]]
+        if fam in ("unreg", "attrs"):
+            m = (U if fam == "unreg" else A).build(case["spec"])
             print(I.print_generic(m))
         elif fam == "pass":
             p = dict(load_passes([case["pass"]]))[case["pass"]]
